@@ -14,6 +14,8 @@ def run(prop, tier):
         jobs.append(dict(src=SRC, args=["join", "-p", p, "--", code]))
     for code in ("r", "7"):          # p_uthread_create_full with explicit priority, stack size and name
         jobs.append(dict(src=SRC, args=["join", "-p", p, "--", code, "f"]))
+    for jv in ("j4", "j-1"):         # a joinable argument that is non-zero without being TRUE
+        jobs.append(dict(src=SRC, args=["join", "-p", p, "--", "7", jv]))
     scripts = [("j", "JU"), ("j", "RUJU"), ("j", "RJUU"), ("j", "UR"[:1]), ("d", "U"), ("d", "RUU"), ("j", "RUU")]
     if tier == "thorough":
         scripts += [("j", "RRUJUU"), ("d", "RRUUU"), ("j", "JRUU")]
